@@ -694,4 +694,106 @@ def importShape (nplanes nrows ncols : Int) : Option (List Int) :=
   if ncols < 2 ∨ nrows < 2 ∨ nplanes < 1 then none
   else if nplanes > 1 then some [nplanes, nrows, ncols] else some [nrows, ncols]
 
+/-! ### one `hdfimport` run over several input files (`process`)
+
+`hdfimport <infile> [-t <type> | -n] [<infile> ...] -o <outfile>` : `process` walks the input files with ONE `struct Input`.
+The part of that structure that decides how the bytes of a file are read are the four format flags; `process` clears them at
+the top of every pass, `gtype` raises the flag of the format it recognises (and never lowers one), and the value readers
+(`gfloat`, `gfloat64`, `gint32`, `gint16`, `gint8`) choose by flag, in the order `is_text`, `is_fp32`, else by the output type. -/
+
+/-- the format `gtype` recognises (`Hishdf`, then the four-character tag) -/
+inductive ImpFmt where
+  | text | fp32 | fp64 | in32 | in16 | in08 | hdf
+deriving DecidableEq, Repr, Inhabited
+
+/-- `outtype`: `FP_32 .. INT_8`; `NO_NE` (no `-t` / `-n` on the command line) is `none` -/
+inductive ImpOut where
+  | fp32 | fp64 | int32 | int16 | int8
+deriving DecidableEq, Repr, Inhabited
+
+/-- `struct Input`: `is_hdf`, `is_text`, `is_fp32`, `is_fp64` -/
+structure ImpFlags where
+  isHdf : Bool := false
+  isText : Bool := false
+  isFp32 : Bool := false
+  isFp64 : Bool := false
+deriving DecidableEq, Repr, Inhabited
+
+/-- how one number is taken from the input: through the SD interface, by `fscanf`, or `bytes` bytes by `fread` -/
+inductive ImpRead where
+  | sd | scan | raw (bytes : Nat)
+deriving DecidableEq, Repr, Inhabited
+
+/-- how the numbers of a file of this format are laid down (manual page, "Notes") -/
+def ImpFmt.layout : ImpFmt → ImpRead
+  | .text => .scan | .fp32 => .raw 4 | .fp64 => .raw 8 | .in32 => .raw 4 | .in16 => .raw 2 | .in08 => .raw 1 | .hdf => .sd
+
+/-- one input file of the command line: format, `-t` / `-n`, header `nplanes nrows ncols` -/
+structure ImpFile where
+  fmt : ImpFmt
+  opt : Option ImpOut
+  np : Int
+  nr : Int
+  nc : Int
+deriving Repr, Inhabited
+
+/-- `process`, top of the loop: `in.is_hdf = in.is_text = in.is_fp32 = in.is_fp64 = FALSE` -/
+def impReset (_ : ImpFlags) : ImpFlags := {}
+
+/-- `gtype`: raises ONE flag (the others are left as they are) and settles / validates `outtype`;
+    `none` = "Invalid use of -t or -n options" -/
+def gtype (fl : ImpFlags) (f : ImpFmt) (o : Option ImpOut) : Option (ImpFlags × Option ImpOut) :=
+  match f with
+  | .hdf => some ({ fl with isHdf := true }, o)
+  | .text => some ({ fl with isText := true }, some (o.getD .fp32))
+  | .fp64 =>
+    if o = some .fp64 then some ({ fl with isFp64 := true }, some .fp64)
+    else if o ≠ none then none
+    else some ({ fl with isFp64 := true }, some .fp32)
+  | .fp32 => if o ≠ none then none else some ({ fl with isFp32 := true }, some .fp32)
+  | .in32 => if o ≠ none then none else some (fl, some .int32)
+  | .in16 => if o ≠ none then none else some (fl, some .int16)
+  | .in08 => if o ≠ none then none else some (fl, some .int8)
+
+/-- the reader `gmaxmin` / `gscale` / `gdata` use for the numbers of the file: `is_hdf` first, then per output type
+    `gfloat` (`is_text`, `is_fp32`, else a double), `gfloat64`, `gint32`, `gint16`, `gint8` (`is_text`, else their own width);
+    `NO_NE` only occurs with an HDF input -/
+def impReader (fl : ImpFlags) (out : Option ImpOut) : ImpRead :=
+  if fl.isHdf then .sd
+  else if fl.isText then .scan
+  else match out with
+    | some .fp32 | none => if fl.isFp32 then .raw 4 else .raw 8
+    | some .fp64 => .raw 8
+    | some .int32 => .raw 4
+    | some .int16 => .raw 2
+    | some .int8 => .raw 1
+
+/-- type of the SDS `process` creates: `case 0: case 5:` is `DFNT_FLOAT32` -/
+def impSdsType (out : Option ImpOut) : ImpOut := out.getD .fp32
+
+/-- what one pass of the loop of `process` gives: SDS type, SDS shape, the reader used -/
+structure ImpRes where
+  ty : ImpOut
+  shape : List Int
+  rd : ImpRead
+deriving DecidableEq, Repr, Inhabited
+
+/-- one pass: reset, `gtype`, `gdimen`; the flags are handed to the next pass as they stand -/
+def impPass (fl : ImpFlags) (f : ImpFile) : Option (ImpFlags × ImpRes) :=
+  match gtype (impReset fl) f.fmt f.opt with
+  | none => none
+  | some (fl', out) =>
+    match importShape f.np f.nr f.nc with
+    | none => none
+    | some sh => some (fl', { ty := impSdsType out, shape := sh, rd := impReader fl' out })
+
+/-- `process`: the loop over the input files, starting from whatever the (uninitialised) descriptor holds; a refused file ends
+    the run with `EXIT_FAILURE` -/
+def importRun (fl : ImpFlags) : List ImpFile → Option (List ImpRes)
+  | [] => some []
+  | f :: rest =>
+    match impPass fl f with
+    | none => none
+    | some (fl', r) => (importRun fl' rest).map (r :: ·)
+
 end H4.Tools
